@@ -687,6 +687,10 @@ impl Gen {
         if any.is_empty() {
             return None;
         }
+        if !elements.is_empty() && self.rng.pct(5) {
+            let el = self.pick_slot(task, &elements)?;
+            return Some(Op::Normalize { el });
+        }
         let mut best: Option<Op> = None;
         for _try in 0..14 {
             let recv = if want_illegal && self.rng.pct(25) {
@@ -1255,8 +1259,39 @@ impl Gen {
                 }
                 1 => {
                     let t = tail?;
+                    // the other way of joining the halves again: normalize() on an element above them
+                    let mut norm: Option<S> = None;
+                    if self.rng.pct(40) {
+                        let tm = w.model.node_slot(t);
+                        let above: Vec<S> = self
+                            .nodes(w, |n| n.kind == Kind::Element)
+                            .into_iter()
+                            .filter(|s| match (w.model.node_slot(*s), tm) {
+                                (Some(e), Some(tm)) => {
+                                    let mut cur = w.model.nodes[tm].parent;
+                                    let mut hit = false;
+                                    while let Some(c) = cur {
+                                        if c == e {
+                                            hit = true;
+                                            break;
+                                        }
+                                        cur = w.model.nodes[c].parent;
+                                    }
+                                    hit
+                                }
+                                _ => false,
+                            })
+                            .collect();
+                        if !above.is_empty() {
+                            norm = Some(*self.rng.pick(&above));
+                        }
+                    }
+                    if let Some(el) = norm {
+                        (Some(Op::Normalize { el }), None)
+                    } else {
                     let data = w.model.node_slot(t).map(|m| w.model.nodes[m].data.clone()).unwrap_or_default();
-                    (Some(Op::AppendData { node: text, data }), Some(Proc::SplitJoin { text, tail, stage: 2 }))
+                        (Some(Op::AppendData { node: text, data }), Some(Proc::SplitJoin { text, tail, stage: 2 }))
+                    }
                 }
                 2 => {
                     let t = tail?;
